@@ -133,25 +133,7 @@ Definition clause (c : case) : bool :=
   end.
 
 (* ---------------- known classes: decidable, INPUT only ---------------- *)
-Local Open Scope Q_scope.
-(* K1 (DESIGN F2): inclusive range whose end bound lies at or beyond the i64 limit in
-   the direction of travel: `to + step` overflows in ValueRange::new *)
-Definition known_K1 (i : cinput) : bool :=
-  match i with
-  | CFor a ua b ub true =>
-      match q_of_bits a, q_of_bits b with
-      | Some qa, Some qb =>
-          match convert_bound qb ub ua with
-          | Some b' =>
-              (Qle_bool (inject_Z i64_max) b' && Qle_bool qa b')
-              || (Qle_bool b' (inject_Z i64_min) && negb (Qle_bool qa b'))
-          | None => false
-          end
-      | _, _ => false
-      end
-  | _ => false
-  end.
-Local Open Scope Z_scope.
+(* (class 1, the i64-edge panic F2, was fixed by 48adbab and no longer exists) *)
 (* K2 (C11 F15): bounds in em/ex/ch, vmin/vmax or %/fr are converted into each
    other with invented ratios instead of being rejected *)
 Definition lone_family (u : string) : N :=
@@ -173,5 +155,5 @@ Definition kind (i : cinput) : Z :=
 (* result: [corr; clause ok; known class of the input; kind] *)
 Definition run (c : case) : list Z :=
   [ corr c; b2z (clause c);
-    (if known_K1 (c_in c) then 1 else if known_K2 (c_in c) then 2 else 0);
+    (if known_K2 (c_in c) then 2 else 0);
     kind (c_in c) ].
